@@ -391,6 +391,130 @@ def canon(v):
     return ['O', type(v).__name__]
 
 
+ERR_CODES = ['#ERROR!', '#DIV/0!', '#NAME?', '#N/A', '#NULL!', '#NUM!', '#REF!', '#VALUE!', '#GETTING_DATA']
+
+
+def enc_value(v):
+    """Python value -> integer list understood by Model/Value.v dec_value."""
+    import datetime
+    from fractions import Fraction
+    from hotxlfp.formulas.error import XLError
+    if isinstance(v, XLError):
+        return [5, ERR_CODES.index(str(v))]
+    if isinstance(v, bool):
+        return [2, int(v)]
+    if isinstance(v, int):
+        return [0, v]
+    if isinstance(v, float):
+        f = Fraction(v)
+        return [1, f.numerator, f.denominator]
+    if isinstance(v, str):
+        return [3, len(v)] + [ord(c) for c in v]
+    if v is None:
+        return [4]
+    if isinstance(v, datetime.datetime):
+        return [6, v.year, v.month, v.day, v.hour, v.minute, v.second, v.microsecond]
+    if isinstance(v, (list, tuple)):
+        out = [7, len(v)]
+        for x in v:
+            out += enc_value(x)
+        return out
+    raise TypeError('cannot encode %r' % (v,))
+
+
+def dec_value(l, i=0):
+    """integer list (Model/Value.v enc_value) -> canonical tuple, next index"""
+    from fractions import Fraction
+    t = l[i]
+    if t == 0:
+        return ('I', l[i + 1]), i + 2
+    if t == 1:
+        return ('F', Fraction(l[i + 1], l[i + 2])), i + 3
+    if t == 2:
+        return ('B', l[i + 1]), i + 2
+    if t == 3:
+        n = l[i + 1]
+        return ('T', ''.join(chr(c) for c in l[i + 2:i + 2 + n])), i + 2 + n
+    if t == 4:
+        return ('N',), i + 1
+    if t == 5:
+        return ('E', ERR_CODES[l[i + 1]]), i + 2
+    if t == 6:
+        return ('D',) + tuple(l[i + 1:i + 8]), i + 8
+    if t == 7:
+        n = l[i + 1]
+        i += 2
+        xs = []
+        for _ in range(n):
+            x, i = dec_value(l, i)
+            xs.append(x)
+        return ('L', tuple(xs)), i
+    raise ValueError('bad value encoding %r at %d' % (l, i))
+
+
+def canon_py(v):
+    """Python value -> the same canonical tuples as dec_value"""
+    import datetime
+    from fractions import Fraction
+    from hotxlfp.formulas.error import XLError
+    if isinstance(v, XLError):
+        return ('E', str(v))
+    if isinstance(v, bool):
+        return ('B', int(v))
+    if isinstance(v, int):
+        return ('I', v)
+    if isinstance(v, float):
+        if v != v or v in (float('inf'), float('-inf')):
+            return ('F', repr(v))
+        return ('F', Fraction(v))
+    if isinstance(v, str):
+        return ('T', v)
+    if v is None:
+        return ('N',)
+    if isinstance(v, datetime.datetime):
+        return ('D', v.year, v.month, v.day, v.hour, v.minute, v.second, v.microsecond)
+    if isinstance(v, (list, tuple)):
+        return ('L', tuple(canon_py(x) for x in v))
+    return ('O', type(v).__name__, repr(v))
+
+
+def dec_outcome(l):
+    """Model outcome -> ('R', value) | ('RAISE', code) | ('EXC',)"""
+    if l[0] == 0:
+        return ('R', dec_value(l, 1)[0])
+    if l[0] == 1:
+        return ('RAISE', ERR_CODES[l[1]])
+    return ('EXC',)
+
+
+def thaw(x):
+    """Frozen case value -> Python value: ('ERR', code) becomes the XLError singleton (a pickled XLError would
+    arrive in the worker as a fresh instance, and the code compares error objects by identity)."""
+    from hotxlfp.formulas import error
+    if isinstance(x, tuple) and len(x) == 2 and x[0] == 'ERR':
+        return error.from_message(x[1])
+    if isinstance(x, list):
+        return [thaw(y) for y in x]
+    if isinstance(x, tuple):
+        return tuple(thaw(y) for y in x)
+    return x
+
+
+def ERR(code):
+    return ('ERR', code)
+
+
+def call_outcome(fn, args):
+    """Call a built-in directly the way Parser.call_function does; canonical outcome."""
+    from hotxlfp.formulas.error import XLError
+    try:
+        return ('R', canon_py(fn(*args)))
+    except XLError as e:
+        return ('RAISE', str(e))
+    except Exception:  # noqa - mapped to #ERROR! by Parser.parse
+        return ('EXC',)
+
+
 _PARSER = None
 
 
